@@ -604,7 +604,10 @@ func (v *visitor) MapNode(node *ast.MapNode) reflect.Type {
 }
 
 func (v *visitor) PairNode(node *ast.PairNode) reflect.Type {
-	v.visit(node.Key)
+	k := v.visit(node.Key)
+	if !isString(k) {
+		v.error(node.Key, "invalid map key (type %v), expected string", k)
+	}
 	v.visit(node.Value)
 	return nilType
 }
